@@ -125,7 +125,7 @@ Example C04_demo_sparse :
                  s_current (ps_sync p) = 2 /\ s_last_saved (ps_sync p) = 0.
 Proof. eexists. eexists. split; [|split]; vm_compute; reflexivity. Qed.
 
-(* LOCKSTEP, UNCONDITIONALLY (max_prediction = 0, no spectators; coq/SessionLockstep.v).  Inside the space - nobody
+(* LOCKSTEP, UNCONDITIONALLY (max_prediction = 0, any number of spectators; coq/SessionLockstep.v).  Inside the space - nobody
    disconnects, remote inputs arrive in frame order while the ring has room, local players share the input
    delay d - for EVERY operation sequence: no modelled assert fires (the run is Err only when it leaves the
    space), the request lists execute, every request of every call is an AdvanceFrame whose inputs are ALL
@@ -133,9 +133,9 @@ Proof. eexists. eexists. split; [|split]; vm_compute; reflexivity. Qed.
    frame the game has simulated was simulated - once - with exactly the inputs held for it. *)
 Theorem C04_lockstep_never_speculates :
   forall (predict : Z -> Z), (forall x, predict (predict x) = predict x) -> predict 0 = 0 ->
-  forall (ops : list sop) (n d : Z) (kinds : list pkind) (eps : list (list Z)),
+  forall (ops : list sop) (n d : Z) (kinds : list pkind) (eps : list (list Z)) (nspec : nat),
   0 <= d -> d + 4 <= INPUT_QUEUE_LENGTH -> 0 < n -> Z.of_nat (length kinds) = n -> players_only kinds ->
-  let p0 := session_start n 0 false d kinds eps 0 in
+  let p0 := session_start n 0 false d kinds eps nspec in
   srun_in predict p0 ops = Err \/
   exists p outs g gs, srun_in predict p0 ops = Ok (p, outs) /\ srun predict p0 ops = Ok (p, outs) /\
     exec_outs 0 (game0 0) outs = Some g /\ gframe g = s_current (ps_sync p) /\ QSg false 0 d p gs /\
